@@ -18,7 +18,7 @@ import time
 
 class Scheduler:
 
-    def __init__(self, path, jobs, choices, tail='fifo', quiet=0.25):
+    def __init__(self, path, jobs, choices, tail='fifo', quiet=0.15):
         self.path = path
         self.jobs = jobs
         self.choices = list(choices)
@@ -29,6 +29,7 @@ class Scheduler:
         self._stop = False
         self._waiting = []      # (arrival number, conn, info)
         self._n = 0
+        self._main_ppid = None
         self._last_arrival = time.time()
         self._lock = threading.Lock()
         self._srv = socket.socket(socket.AF_UNIX, socket.SOCK_STREAM)
@@ -61,6 +62,19 @@ class Scheduler:
                 info = json.loads(data.decode() or '{}')
             except Exception:  # noqa: a dying command; let it go
                 info = {}
+            if self._main_ppid is None:
+                # the first run is the golden run, started by the main process
+                self._main_ppid = info.get('ppid')
+            if info.get('ppid') == self._main_ppid:
+                # a check of the main process (golden run, sequential ddmin):
+                # nothing to choose from
+                try:
+                    conn.sendall(b'go\n')
+                    conn.close()
+                except OSError:
+                    pass
+                self.released += 1
+                continue
             with self._lock:
                 self._n += 1
                 self._waiting.append((self._n, conn, info))
